@@ -98,3 +98,15 @@ V("C05", "trailing-star-dropped", "F", "R2", GLP,
 V("C05", "no-posix", "F", "R3", GLP,
   '        path = PurePath(path).as_posix()\n        for item in reversed(self.annotations):', '        path = str(path)\n        for item in reversed(self.annotations):')
 VARIANTS.append({"prop": "C05", "id": "C05:rename-state-vars", "expect": "S", "rule": "", "edits": [], "sed": ("src/reuse/global_licensing.py", "globstar", "dbl_star")})
+
+# ----------------------------------------------------------------- C17
+V("C17", "unlink-before-write", "F", "R1", R + "cli/convert_dep5.py",
+  '    (project.root / "REUSE.toml").write_text(text)\n    (project.root / ".reuse/dep5").unlink()',
+  '    (project.root / ".reuse/dep5").unlink()\n    (project.root / "REUSE.toml").write_text(text)')
+V("C17", "no-refusal", "F", "R1", R + "cli/convert_dep5.py",
+  '    if not (project.root / ".reuse/dep5").exists():\n        raise click.UsageError(_("No \'.reuse/dep5\' file."))\n', '')
+V("C17", "precedence-closest", "F", "R2", R + "convert_dep5.py", '"precedence": "aggregate",', '"precedence": "closest",')
+V("C17", "single-star-kept", "F", "R3", R + "convert_dep5.py", 'return _SINGLE_ASTERISK_PATTERN.sub("**", path)', 'return _SINGLE_ASTERISK_PATTERN.sub("*", path)')
+V("C17", "pattern-needs-no-lookbehind", "F", "R3", R + "convert_dep5.py", r're.compile(r"(?<!\*)\*(?!\*)")', r're.compile(r"\*(?!\*)")')
+V("C17", "key-renamed", "F", "R2", R + "convert_dep5.py", '"SPDX-FileCopyrightText": copyrights,', '"SPDX-FileCopyright": copyrights,')
+V("C17", "first-path-only", "F", "R2", R + "convert_dep5.py", "[_convert_asterisk(path) for path in list(paragraph.files)]", "[_convert_asterisk(path) for path in list(paragraph.files)[:1]]")
